@@ -480,21 +480,27 @@ class Framer(tasking.Tasker):
         self.human = ''
         self.active = None
 
-    def checkStart(self):
+    def checkStart(self, claimed=None):
         """checks if framer can be started from first frame
            checking entry needs for first frame's outline
            returns result of checkEnter()
+           claimed is passed on to checkEnter
 
         """
-        return self.checkEnter(enters=self.first.outline)
+        return self.checkEnter(enters=self.first.outline, claimed=claimed)
 
-    def checkEnter(self, enters=[], exits=[]):
+    def checkEnter(self, enters=[], exits=[], claimed=None):
         """checks beacts for frames in enters list
            return on first failure do not keep testing
            assumes enters outline in top down order
            exits list is used by frame.checkEnters to test for original auxiliaries
            that would be exited from thier main frame if transition where allowed
+           claimed is list of the original auxiliaries of the frames checked so far
+           in this same check, None starts a new check
         """
+        if claimed is None:
+            claimed = []
+
         console.profuse("{0}Check enters of {1} Framer {2}\n".format(
             '    ' if self.schedule == AUX or self.schedule == SLAVE else '',
             ScheduleNames[self.schedule],
@@ -505,7 +511,7 @@ class Framer(tasking.Tasker):
             return False
 
         for frame in enters:
-            if not frame.checkEnter(exits=exits):
+            if not frame.checkEnter(exits=exits, claimed=claimed):
                 return False
         console.profuse("    True all {0}\n".format(self.name))
         return True
@@ -1334,12 +1340,18 @@ class Frame(registering.StoriedRegistrar):
         self.headHuman = human
         return human
 
-    def checkEnter(self, exits=[]):
+    def checkEnter(self, exits=[], claimed=None):
         """Check beacts for self and auxes
            exits is list of exit frames to test if aux main frame would be exited
            if transition allowed
+           claimed is list of the original auxiliaries of the frames checked before
+           this one in the same check. The same original auxiliary may not be
+           entered by two frames so fail if one of ours is already in claimed
         """
         console.profuse("    Check enter into {0}\n".format(self.name))
+
+        if claimed is None:
+            claimed = []
 
         for need in self.beacts:  #could use generator expression and all()
             if not need(): #evaluate need Act if failed
@@ -1354,7 +1366,14 @@ class Frame(registering.StoriedRegistrar):
                         " '{1}'\n".format(aux.name, aux.main.name))
                 return False
 
-            if not aux.checkStart(): #performs entry checks beacts
+            if aux.original:
+                if any(aux is other for other in claimed):
+                    console.concise("    False. Invalid aux '{0}' also aux of another"
+                            " frame to be entered\n".format(aux.name))
+                    return False
+                claimed.append(aux)
+
+            if not aux.checkStart(claimed=claimed): #performs entry checks beacts
                 return False
 
         console.profuse("    True all {0}\n".format(self.name))
